@@ -27,3 +27,95 @@ func init() {
 		return nil
 	})
 }
+
+func init() {
+	reg("incremental-newer-revision-type", "C18: a type resolved against an older revision is re-bound when a newer revision is loaded and Process runs again", func() error {
+		foo19 := "module foo { namespace \"urn:foo\"; prefix foo; revision 2019-01-01; typedef t { type string; } }"
+		foo20 := "module foo { namespace \"urn:foo\"; prefix foo; revision 2020-01-01; typedef t { type uint32; } }"
+		user := "module user { namespace \"urn:user\"; prefix u; import foo { prefix f; } leaf x { type f:t; } }"
+		kindOf := func(ms *yang.Modules) string {
+			e := yang.ToEntry(ms.Modules["user"])
+			x := e.Dir["x"]
+			if x == nil || x.Type == nil {
+				return "?"
+			}
+			return x.Type.Kind.String()
+		}
+		batch := yang.NewModules()
+		batch.Parse(foo19, "foo@2019-01-01.yang")
+		batch.Parse(foo20, "foo@2020-01-01.yang")
+		batch.Parse(user, "user.yang")
+		if errs := batch.Process(); len(errs) > 0 {
+			return fmt.Errorf("batch: %v", errs)
+		}
+		inc := yang.NewModules()
+		inc.Parse(foo19, "foo@2019-01-01.yang")
+		inc.Parse(user, "user.yang")
+		if errs := inc.Process(); len(errs) > 0 {
+			return fmt.Errorf("inc first: %v", errs)
+		}
+		inc.Parse(foo20, "foo@2020-01-01.yang")
+		if errs := inc.Process(); len(errs) > 0 {
+			return fmt.Errorf("inc second: %v", errs)
+		}
+		if a, b := kindOf(batch), kindOf(inc); a != b {
+			return fmt.Errorf("leaf x has type %s after a batch load but %s after loading the newer revision later and processing again", a, b)
+		}
+		return nil
+	})
+	reg("incremental-missing-import-identity", "C18: an error caused by a module that was not loaded yet goes away once it is loaded and Process runs again", func() error {
+		base := "module base { namespace \"urn:base\"; prefix b; identity root; }"
+		user := "module user { namespace \"urn:user\"; prefix u; import base { prefix b; } typedef r { type identityref { base b:root; } } leaf x { type r; } }"
+		batch := yang.NewModules()
+		batch.Parse(base, "base.yang")
+		batch.Parse(user, "user.yang")
+		berrs := batch.Process()
+		inc := yang.NewModules()
+		inc.Parse(user, "user.yang")
+		inc.Process() // fails: base is missing
+		inc.Parse(base, "base.yang")
+		ierrs := inc.Process()
+		if len(berrs) != len(ierrs) {
+			return fmt.Errorf("batch load: %d errors %v; load user, process, load base, process: %d errors %v", len(berrs), berrs, len(ierrs), ierrs)
+		}
+		return nil
+	})
+}
+
+func init() {
+	reg("incremental-identity-values-old-revision", "C18: identity value lists after an incremental load equal those of a batch load, also on the older revision", func() error {
+		b19 := "module base { namespace \"urn:base\"; prefix b; revision 2019-01-01; identity root; }"
+		b20 := "module base { namespace \"urn:base\"; prefix b; revision 2020-01-01; identity root; }"
+		user := "module user { namespace \"urn:user\"; prefix u; import base { prefix b; } identity child { base b:root; } }"
+		vals := func(ms *yang.Modules) string {
+			out := ""
+			for _, k := range []string{"base@2019-01-01", "base@2020-01-01"} {
+				out += k + ":["
+				for _, v := range ms.Modules[k].Identity[0].Values {
+					out += v.Name + " "
+				}
+				out += "] "
+			}
+			return out
+		}
+		batch := yang.NewModules()
+		batch.Parse(b19, "base@2019-01-01.yang")
+		batch.Parse(b20, "base@2020-01-01.yang")
+		batch.Parse(user, "user.yang")
+		if errs := batch.Process(); len(errs) > 0 {
+			return fmt.Errorf("batch: %v", errs)
+		}
+		inc := yang.NewModules()
+		inc.Parse(b19, "base@2019-01-01.yang")
+		inc.Parse(user, "user.yang")
+		inc.Process()
+		inc.Parse(b20, "base@2020-01-01.yang")
+		if errs := inc.Process(); len(errs) > 0 {
+			return fmt.Errorf("inc: %v", errs)
+		}
+		if a, b := vals(batch), vals(inc); a != b {
+			return fmt.Errorf("batch: %s; incremental: %s", a, b)
+		}
+		return nil
+	})
+}
